@@ -37,6 +37,9 @@ CLAIMED.update({
   "C17": "Both credential generators against the matching handlers with the clock, duration, secret, user and realm symbolic (IA arithmetic): accepted at every instant up to the expiry time, rejected from one second after it; the returned key is the same term as GenerateAuthKey(username, realm, generated password); REST user id is the user part; non-numeric usernames rejected. HMAC/MD5/base64 are uninterpreted functions.",
   "C20": "All three generators over a fake transport.Net: every bind attempt of the port-range generator lies in [MinPort, MaxPort] for all 2^32 configurations with MinPort <= MaxPort and all random outputs (Intn argument always positive), advertised IP is the configured one, advertised port is the bound port, requested ports pass through, failure leaves nothing open.",
 })
+CLAIMED.update({
+  "C14": "Compositional (weaker than the other claims, see DESIGN.md C14): solver-checked ingredients on the real code - refresh intervals wired by NewUDPConn for all configurations, PeriodicTimer re-arms the full interval every round and stops cleanly (goroutine run as a cooperative thread), refresh rounds retry on 438 with the new nonce (<=3 attempts) and store the reported lifetime, Close stops the timers and sends Refresh(0), and the schedule inequality period + 3 transactions + jitter < server timeout from the constants in the code.",
+})
 NA = {}
 ALL = ["C%02d" % i for i in range(1, 21)]
 for p in ALL:
